@@ -31,7 +31,8 @@ from vlib.runner import HarnessError
 PROP = "C29"
 LEVEL = "fault_enumeration"
 RULE = ("case = (api, naming scheme, 1-3 concurrent runs each = test kernel x "
-        "transformation variant, optional earlier sequential runs, optional "
+        "transformation variant [x module named '<base>_MOD' in the "
+        "algorithm layer], optional earlier sequential runs, optional "
         "pre-existing foreign files, schedule = order in which the runs "
         "perform their os.open/os.write/os.close/open/read operations); all "
         "interleavings of every listed 2-run configuration are enumerated "
@@ -154,6 +155,8 @@ def build_kernel(api, spec):
         raise HarnessError(f"variant {spec['v']} not valid for {api}")
     Config.get().api = api
     upper = bool(spec.get("uc"))
+    if upper and spec["k"] not in UPPER_OK:
+        raise HarnessError(f"'uc' is not supported for kernel {spec['k']}")
     info = None if FRESH_PARSE[0] else _PARSED.get((api, alg, upper))
     if info is None:
         srcdir = os.path.join(_base_path(), DIRS[api])
@@ -654,9 +657,12 @@ def explore(case, prefix, visit):
     return count
 
 
+UPPER_OK = ("cu", "tk")      # kernels found unambiguously as '<base>_MOD'
+
+
 def spec(kern, variant, upper=False):
     one = {"k": kern, "v": variant}
-    if upper:
+    if upper and kern in UPPER_OK:
         one["uc"] = True
     return one
 
